@@ -620,6 +620,24 @@ func C19Main(jobJSON, corpusFile string) int {
 				}
 				g.batch(batch, fmt.Sprintf("item deletions/duplications of corpus register #%d", ri))
 				g.batch(structuralEdits(base, regStarts(base)), fmt.Sprintf("well-formed element insertions/deletions (counts adjusted) of corpus register #%d", ri))
+				// tag edits: every tag the decoders know (the library's 246..255, the value wrappers and scalars of
+				// the storable decoder) inserted in front of every item, and every existing tag head removed or
+				// replaced by each of the others — a well-formed item of an unexpected kind at every position
+				tags := []byte{0xa4, 0xa5, 0xa6, 0xa1, 0xa2, 0xa3, 0xf6, 0xf7, 0xf8, 0xf9, 0xfa, 0xfb, 0xfc, 0xfd, 0xfe, 0xff}
+				batch = batch[:0]
+				for off := range seenOff {
+					if off >= len(base) {
+						continue
+					}
+					for _, t := range tags {
+						ins := append(append(append([]byte(nil), base[:off]...), 0xd8, t), base[off:]...)
+						batch = append(batch, ins)
+					}
+					if base[off] == 0xd8 && off+2 <= len(base) {
+						batch = append(batch, append(append([]byte(nil), base[:off]...), base[off+2:]...))
+					}
+				}
+				g.batch(batch, fmt.Sprintf("tag insertions/removals at item boundaries of corpus register #%d", ri))
 				// splices with the next registers of the corpus at item boundaries
 				batch = batch[:0]
 				for step := 1; step <= 3; step++ {
@@ -680,7 +698,7 @@ func init() {
 }
 
 func runC19(r *Run) {
-	r.Rule = "bounded-exhaustive inputs to DecodeSlab and the three header queries: (i) ALL byte strings of length <= 3 and all 4-byte strings (thorough: selected 5-byte) starting with one of the 180 two-byte heads the decoder dispatches on; (ii) for every distinct register of a corpus produced by the other drivers (every slab kind, inlined/compact/collision shapes, large values; plus their version-0 re-encodings): every truncation, every single-byte substitution (255 values at every offset), deletion and duplication of every CBOR item, every WELL-FORMED element insertion/deletion (array count or digest-list length adjusted), splices with other registers at item boundaries, and for the short registers the PAIR neighbourhood: every well-formed structural edit combined with every small change (+-1, +-2, single-bit flips) of every byte. Oracle: no panic (recover), call returns (20 s watchdog), allocation per input <= 64 KiB + 2 KiB per input byte (measured per batch, drilled down per input), accessors of successfully decoded slabs do not panic. distinct_nontrivial = corpus registers mutated (each contributes its full one-edit neighbourhood)"
+	r.Rule = "bounded-exhaustive inputs to DecodeSlab and the three header queries: (i) ALL byte strings of length <= 3 and all 4-byte strings (thorough: selected 5-byte) starting with one of the 180 two-byte heads the decoder dispatches on; (ii) for every distinct register of a corpus produced by the other drivers (every slab kind, inlined/compact/collision shapes, large values; plus their version-0 re-encodings): every truncation, every single-byte substitution (255 values at every offset), deletion and duplication of every CBOR item, every WELL-FORMED element insertion/deletion (array count or digest-list length adjusted), every known tag inserted in front of every item and every tag head removed, splices with other registers at item boundaries, and for the short registers the PAIR neighbourhood: every well-formed structural edit combined with every small change (+-1, +-2, single-bit flips) of every byte. Oracle: no panic (recover), call returns (20 s watchdog), allocation per input <= 64 KiB + 2 KiB per input byte (measured per batch, drilled down per input), accessors of successfully decoded slabs do not panic. distinct_nontrivial = corpus registers mutated (each contributes its full one-edit neighbourhood)"
 	r.Assumptions = []string{
 		"the statement quantifies over all byte strings; what is decided is the stated neighbourhood",
 		"the harness's storable decoder bounds wrapper nesting (the test helper's unbounded loop is a property of the helper, not of atree)",
